@@ -54,6 +54,7 @@ type interpreter struct {
 	path     *pathState
 	vector   map[string]string // concrete mode: nondet values
 	concreteEvents []string
+	simulate bool // concrete vector, but the harness takes its engine-side branches
 	funcsSeen map[string]bool
 	maxBackEdges int
 	initDone map[*ssa.Package]bool
